@@ -42,6 +42,9 @@ use crate::{
 
 mod remote_state;
 
+#[cfg(feature = "verif-hooks")]
+pub(crate) use self::remote_state::path_state_verif;
+
 // TODO: use this
 // /// Number of endpoints that are inactive for which we keep info about. This limit is enforced
 // /// periodically via [`NodeMap::prune_inactive`].
